@@ -58,10 +58,10 @@ def run(tier, seed):
     P = space.enumerate_programs
     base = P(2, 3)
     if tier == "quick":
-        more = [p for p in kspace.programs("quick", "light") if p not in set(base)]
+        more = [p for p in kspace.programs(tier, "light") if p not in set(base)]
         stride = 11
     else:
-        more = [p for p in kspace.programs("quick", "full") if p not in set(base)]
+        more = [p for p in kspace.programs(tier, "full") if p not in set(base)]
         stride = 5
     # native compilation does not scale beyond ~4 concurrent tool chains in this VM (page-fault bound), so the
     # quick tier compiles every 2nd kernel of the base space (the other half under the next VERIF_SEED)
